@@ -17,4 +17,5 @@ Extraction "../ocaml/gen/arrays_model.ml"
   ArrayAdaptCore.params ArrayAdaptCore.astate ArrayAdaptCore.store_decide ArrayAdaptCore.load_decide
   ArrayAdaptCore.store_shape ArrayAdaptCore.load_shape ArrayAdaptCore.as_join ArrayAdaptCore.as_meet
   ArrayAdapt.pv ArrayAdapt.adom ArrayAdapt.a_top ArrayAdapt.a_is_bottom ArrayAdapt.a_is_top ArrayAdapt.a_at
-  ArrayAdapt.a_leq ArrayAdapt.am_find ArrayAdapt.gh_hasc ArrayAdapt.dget ArrayAdapt.dstep.
+  ArrayAdapt.a_leq ArrayAdapt.am_find ArrayAdapt.gh_hasc ArrayAdapt.dget ArrayAdapt.dstep
+  ItvDomain.d_eval Itv.isingleton.
